@@ -179,6 +179,26 @@ def build(template_path, repo, variant="strict", inline=None):
                 raise LostAnchor("%s: no call site of %s found" % (relfile, callee))
             i += 1
             continue
+        if d.startswith("count "):
+            # //@ count <file> <selector> `tokens` == N : the item must contain the token sequence exactly N times, else a lost
+            # anchor (UNDECIDED). Used to pin down that all the places touching some state are the ones under contract.
+            m = re.match(r"count\s+(\S+)\s+(.*?)\s+`(.*)`\s*==\s*(\d+)\s*$", d)
+            if not m:
+                raise ValueError("%s:%d: bad count directive" % (origin[1], origin[2]))
+            relfile, sel_, pat_, want_ = m.group(1), m.group(2), m.group(3), int(m.group(4))
+            try:
+                it_ = find_item(os.path.join(repo, relfile), sel_)
+                hcode = [t.text for t in it_.toks if t.kind not in ("ws", "lcomment", "bcomment")]
+                pt = [t.text for t in lex(pat_) if t.kind not in ("ws", "lcomment", "bcomment")]
+                got = sum(1 for q in range(len(hcode) - len(pt) + 1) if hcode[q:q + len(pt)] == pt)
+                if got != want_:
+                    res.lost.append("%s %s: `%s` occurs %d times, the unit accounts for %d" % (relfile, sel_, pat_, got, want_))
+                else:
+                    out.append(("// count: `%s` occurs %d times in %s %s (all accounted for)" % (pat_, got, relfile, sel_), ("gen", None, 0)))
+            except LostAnchor as e:
+                res.lost.append(str(e))
+            i += 1
+            continue
         if not d.startswith("extract "):
             raise ValueError("%s:%d: unknown directive %r" % (origin[1], origin[2], s))
         _, relfile, selector = d.split(None, 2)
